@@ -2,6 +2,10 @@
 """Regenerates /verif/MANIFEST.json from the table below (run after adding a check)."""
 import json, subprocess
 CHECKS = {
+ "C14": dict(level="model_checking",
+   text="(a) History exploration: every sequence of 2 (thorough 3) hostile events over 39 packets/frames (all 14 types with boundary ids, empty / wildcard / NUL / 64 KiB topics and filters, 64 KiB payload, 7 malformed frames, abrupt close), reconnect, and a backend hook failing at each of 8 call sites, started cold or after a valid CONNECT; (b) every sequence of 5 (thorough 7) events of a misbehaving consumer of the witnesses' own traffic; after EVERY event two witnesses exchange a QoS 1 marker which must arrive exactly once with both still connected; (c) schedule exploration: MemoryBackend.Close / Engine.Close racing with 1-2 CONNECTs, and a 3-peer connect/publish/disconnect storm with a shared client id, all schedules within delay bound 2-3. Oracles: no captured panic, no witness disturbed, threads of ended connections gone, Terminate exactly once per successful Setup, closed signal fired, no backend hook stuck.",
+   note="Trusted: rewriter + scheduler shims, codec pipe, recording backend. Hostile inputs are a finite catalogue, not all byte streams (byte-level totality of the decoder is C02).",
+   technique="bounded-exhaustive hostile-input history exploration + deviation-bounded schedule exploration of shutdown races, implementation under a controlled scheduler", design="5 (C14)"),
  "C12": dict(level="model_checking",
    text="Exhaustive cross product, each combination explored on a fresh real broker under the controlled scheduler: 24 termination causes (DISCONNECT, drop, read error, malformed / oversized frame, second CONNECT, server-only packet, keep-alive expiry, clean/unclean takeover, backend close, engine close, send failure, token timeout, DISCONNECT followed by a drop, malformed frame followed by DISCONNECT, and 8 pre-acceptance causes incl. rejected credentials, refusing Setup, failing CONNACK write) x 6 protocol states (idle, inbound QoS 1/2 handshake open, outbound handshake open, blocked on a publish token, observer queue full) x will QoS x retain x keep-alive value; the will's Publish calls are counted at the backend and compared with 'accepted and no DISCONNECT read', content compared, online / offline-persistent / late observers checked, the requested read timeout compared with 1.5 x effective keep-alive; second pass with 1 (thorough 2) scheduling deviations placed everywhere inside each combination.",
    note="Trusted: rewriter + scheduler shims, codec pipe, recording backend. 'Accepted' = authentication succeeded and Setup returned a session. Timers >= 100 ms fire only as events.",
